@@ -145,7 +145,8 @@ package fsnotify
 //@ func (w *kqueue) AddWith(name string, opts ...addOpt) (err error)
 //@   requires KWf(w) && nolocks() && token(reader) && !closed(w.Events) && !closed(w.Errors)
 //@   ensures nolocks()
-//@   atcall watches.addUserWatch: arg_path == filepath.Clean(name)                                                            [C17] "the user's path is recorded under the spelling that Remove and WatchList use (the cleaned one)"
+//@   atcall watches.addUserWatch: name == filepath.Clean(name) ==> arg_path == name                                           [C17] "a path given in clean form is recorded as added by the user under exactly that spelling"
+//@   atcall watches.addUserWatch: name != filepath.Clean(name) ==> arg_path == filepath.Clean(name)                            [C17] "the user's path is recorded under the spelling that Remove and WatchList use (the cleaned one)"
 //@   atcall kqueue.addWatch: arg_flags == noteAllEvents                                                                        [C15 C17]
 
 //@ pred Recorded(w *kqueue) := forall(k, int, has(open, k) && !has(old(open), k) ==> has(w.watches.wd, k)) && forall(k, int, has(old(w.watches.wd), k) ==> has(w.watches.wd, k)) &&
@@ -212,7 +213,8 @@ package fsnotify
 //@   atcall kqueue.dirChange: ok && path.linkName == "" && event.Op & (Rename | Remove) != 0 ==> lastRemoved == path.name      [C17] "also when the notification is a directory change combined with a rename"
 //@   atcall kqueue.dirChange: arg_dir == event.Name || arg_dir == filepath.Clean(event.Name)                                 [C18] "a changed directory is listed again under the name its events are reported with (the spelling it was added under), the name its seen marks are kept under"
 //@   atcall kqueue.remove: !arg_unwatchFiles                                                                                  [C18 C17] "when a watched directory disappears only its own watch is dropped here: the watches of its entries end with their own notifications, so that each entry still reports its Remove"
-//@   atcall kqueue.remove: arg_name == filepath.Clean(arg_name) ==> arg_name == path.name                                     [C17] "when a watched path is deleted or renamed, the removal is asked for under the name the tables are keyed by (so that its descriptor is closed)"
+//@   atcall kqueue.remove: path.linkName == "" && arg_name == filepath.Clean(arg_name) ==> arg_name == path.name              [C17] "when a path watched under its own name is deleted or renamed, the removal is asked for under that name"
+//@   atcall kqueue.remove: path.linkName != "" && arg_name == filepath.Clean(arg_name) ==> arg_name == path.name              [C17] "when a watched path is deleted or renamed, the removal is asked for under the name the tables are keyed by (so that its descriptor is closed)"
 //@   loop 1 "for"
 //@     invariant KWf(w) && nolocks() && token(reader) && !closed(w.Events) && !closed(w.Errors)
 //@   ghostvar okIter bool
